@@ -171,3 +171,34 @@ pub open spec fn ops_v6_layout(typ: u8, hash: u8, pk: u8, salt: Seq<u8>, fingerp
 pub open spec fn ops_unknown_layout(version: u8, typ: u8, hash: u8, pk: u8, data: Seq<u8>, nested: u8) -> Seq<u8> {
     seq![version, typ, hash, pk] + data + seq![nested]
 }
+
+// ---- RFC 9580 5.3: Symmetric-Key Encrypted Session Key packet (type ID 3) -----------------------
+// 5.3.1 version 4:  A one-octet version number with value 4.  A one-octet number describing the symmetric
+//   algorithm used.  An S2K Specifier.  Optionally, the encrypted session key itself.
+pub open spec fn skesk_v4_layout(sym: u8, s2k: Seq<u8>, esk: Seq<u8>) -> Seq<u8> {
+    seq![4u8, sym] + s2k + esk
+}
+// 5.3.2 version 6:  A one-octet version number with value 6.  A one-octet scalar octet count for the 5 fields
+//   following this octet.  A one-octet symmetric cipher algorithm ID.  A one-octet AEAD algorithm identifier.
+//   A one-octet scalar octet count of the following field.  An S2K Specifier.  A starting initialization vector
+//   of size specified by the AEAD algorithm.  The encrypted session key itself.  An authentication tag.
+/// the general shape with the two count octets as they stand on the wire
+pub open spec fn skesk_v6_shape(count: u8, sym: u8, aead: u8, s2k_len: u8, s2k: Seq<u8>, iv: Seq<u8>, esk: Seq<u8>) -> Seq<u8> {
+    seq![6u8, count, sym, aead, s2k_len] + s2k + iv + esk
+}
+/// "octet count for the 5 fields following": sym (1) + aead (1) + S2K length octet (1) + S2K + IV
+pub open spec fn skesk_v6_count(s2k: Seq<u8>, iv: Seq<u8>) -> int { 3 + s2k.len() as int + iv.len() as int }
+/// both counts fit their octet
+pub open spec fn skesk_v6_ok(s2k: Seq<u8>, iv: Seq<u8>) -> bool { skesk_v6_count(s2k, iv) <= 255 }
+/// the canonical packet: both counts are the true counts
+pub open spec fn skesk_v6_layout(sym: u8, aead: u8, s2k: Seq<u8>, iv: Seq<u8>, esk: Seq<u8>) -> Seq<u8> {
+    skesk_v6_shape(skesk_v6_count(s2k, iv) as u8, sym, aead, s2k.len() as u8, s2k, iv, esk)
+}
+// LibrePGP (GnuPG) version 5: version 5, cipher algorithm, AEAD mode, S2K specifier, IV, encrypted key + tag
+pub open spec fn skesk_v5_layout(sym: u8, aead: u8, s2k: Seq<u8>, iv: Seq<u8>, esk: Seq<u8>) -> Seq<u8> {
+    seq![5u8, sym, aead] + s2k + iv + esk
+}
+/// a version this implementation does not know: the body after the version octet is kept opaque
+pub open spec fn skesk_other_layout(version: u8, data: Seq<u8>) -> Seq<u8> { seq![version] + data }
+/// RFC 9580 5.13.2-5.13.4 (Table 25): AEAD algorithm ids and nonce ("IV") sizes: EAX 1 / 16, OCB 2 / 15, GCM 3 / 12
+pub open spec fn aead_iv_len(id: u8) -> int { if id == 1 { 16 } else if id == 2 { 15 } else if id == 3 { 12 } else { 0 } }
